@@ -226,6 +226,10 @@ def run_shard(sh):
             case = {"argv": argv, "text": text, "must_fail": cmdcls.split("!must-fail:")[1] if "!must-fail:" in cmdcls else None}
             nima.reset_state()
             fails, outcome = judge(argv, text, tmpdir)
+            if "!must-fail:" in cmdcls and kind not in ("canonical", "newlines"):
+                # the model's refusals are claimed for generated documents only (arbitrary programs meet open findings
+                # of the round-trip family, e.g. comments inside attrpaths)
+                cmdcls = cmdcls.split("!must-fail:")[0]
             if "!must-fail:" in cmdcls and outcome == "edit-ok":
                 # the reference model of C05/C08 refuses this edit (missing key, path through a leaf, missing scope layer…):
                 # "exit 0 only on success" — there is no success to report
